@@ -107,6 +107,14 @@ def cases(tier, seed):
     for off in (3.0, -3.0, 0.0):
         for n_ in (130, 400):
             yield ('sift', 'long', ('offset-tone', 256, off), ('fixed', n_), seed)
+    # parabolic refinement of the extrema (an extrema-stage option): peaks and troughs must be treated alike
+    for i, name in enumerate(signals.fb_names((32,))):
+        if name[0] in ('noise', 'walk'):
+            continue
+        for ci in ((i * 5) % 24, (i * 7 + 9) % 24):
+            if SUB24[ci][0][0] == 'rilling' and SUB24[ci][1] < 1:
+                continue
+            yield ('sift', 'fb-par', name, ci, seed)
     nm = 0
     for name in signals.fb_names(b['fb_sizes']):
         k += 1
@@ -178,7 +186,9 @@ def check_sift(case):
     else:
         (rule, par), step, interp, pad = SUB24[case[3]]
     o = opts_of(rule, par, step, interp, pad)
-    tag = 'x=%s stop=%s%r step=%.3g interp=%s pad=%d' % (
+    if case[1] == 'fb-par':
+        o['extrema_opts']['parabolic_extrema'] = True
+    tag = 'x=%s%s stop=%s%r step=%.3g interp=%s pad=%d' % ('parabolic extrema, ' if case[1] == 'fb-par' else '', 
         x.tolist() if N <= 12 else '%s%r' % (case[1], case[2]), rule, par, step, interp, pad)
     viols = []
     trans = 0
